@@ -21,6 +21,7 @@ type set interface {
 	Len() int
 	Cap() int
 	Iter() []uint
+	IterPair() [][]uint
 	IterRemove(k int) []uint
 	Range(k int) []uint
 	All() []uint
@@ -43,6 +44,9 @@ func (s *bitsS) Iter() []uint {
 		out = append(out, it.Value())
 	}
 	return out
+}
+func (s *bitsS) IterPair() [][]uint {
+	return core.IterPair(func() (func() bool, func() uint) { it := s.b.Iter(); return it.Next, it.Value })
 }
 func (s *bitsS) IterRemove(k int) []uint {
 	out := []uint{}
@@ -88,6 +92,9 @@ func (s *bitmapS) Iter() []uint {
 	}
 	return out
 }
+func (s *bitmapS) IterPair() [][]uint {
+	return core.IterPair(func() (func() bool, func() uint) { it := s.b.Iter(); return it.Next, it.Value })
+}
 func (s *bitmapS) IterRemove(k int) []uint {
 	out := []uint{}
 	for it := s.b.Iter(); it.Next() && len(out) < 1<<16; {
@@ -121,6 +128,9 @@ func (s *dszS) Iter() []uint {
 		out = append(out, it.Value())
 	}
 	return out
+}
+func (s *dszS) IterPair() [][]uint {
+	return core.IterPair(func() (func() bool, func() uint) { it := s.b.Iter(); return it.Next, it.Value })
 }
 func (s *dszS) IterRemove(k int) []uint {
 	out := []uint{}
@@ -273,7 +283,7 @@ func (a *ad) Apply(op core.Op) (interface{}, error) {
 }
 
 func (a *ad) Obs() interface{} {
-	return map[string]interface{}{"len": a.x.Len(), "iter": a.x.Iter(), "range2": a.x.Range(2), "all": a.x.All(),
+	return map[string]interface{}{"len": a.x.Len(), "iter": a.x.Iter(), "iterpair": a.x.IterPair(), "range2": a.x.Range(2), "all": a.x.All(),
 		"ylen": a.y.Len(), "yiter": a.y.Iter()}
 }
 
